@@ -163,10 +163,138 @@ def r3_phase_handover_drains(chk):
         r.require(cfg, 6, "forward phase assignments")
 
 
+def _path_to(body, starts, goal, avoid_blocks, avoid_edges):
+    """one path (list of blocks) from starts to goal under the avoid sets, for diagnostics"""
+    from collections import deque
+    prev = {}
+    dq = deque(s for s in starts if s not in avoid_blocks)
+    seen = set(dq)
+    while dq:
+        b = dq.popleft()
+        if b == goal:
+            out = [b]
+            while out[-1] in prev:
+                out.append(prev[out[-1]])
+            return out[::-1]
+        for tb, lab in body.edges(b):
+            if (b, lab) in avoid_edges or tb in avoid_blocks or tb in seen:
+                continue
+            seen.add(tb)
+            prev[tb] = b
+            dq.append(tb)
+    return []
+
+
+def _ref_root(body, o):
+    """local L when operand o is `&mut L` / `&mut *(&mut L)` (a reborrow chain to a plain local)"""
+    for _ in range(6):
+        if o["c"] not in ("copy", "move") or o["p"]["pr"]:
+            return None
+        ds = body.whole_defs(o["p"]["l"])
+        if len(ds) != 1 or ds[0][0] != "assign":
+            return None
+        rv = ds[0][3]["r"]
+        if rv["k"] == "ref":
+            p = rv["p"]
+            if not p["pr"]:
+                return p["l"]
+            if len(p["pr"]) == 1 and p["pr"][0][0] == "deref":
+                o = {"c": "copy", "p": {"l": p["l"], "pr": [], "s": "", "ty": ""}}
+                continue
+            return None
+        if rv["k"] == "use":
+            o = rv["o"]
+            continue
+        return None
+    return None
+
+
+def r4_bytes_read_reach_engine(chk):
+    from vlib import mir
+    r = chk.rule("R4", "bytes taken from the transport are not discarded on a clean path", "T4 must-pass-through",
+                 "where a read cycle accumulates into a local buffer that is handed to ZmtpEngine::on_network_bytes, every path from a site that appended to the buffer to the function's return "
+                 "passes through on_network_bytes, except transport failures (ZmqError::from_io_endpoint / the `?` on the read itself) and the `n == 0` edge of that same read; "
+                 "a clean EOF seen later in the same cycle must not drop data read earlier in it")
+    for cfg, prog in chk.configs():
+        n = 0
+        for e in prog.calls_to(r"ZmtpEngine::on_network_bytes$"):
+            body = e.body
+            if "::tests" in body.path or len(e.args) < 2:
+                continue
+            # the buffer local behind the argument: freeze(buf) / split(buf)
+            o = e.args[1]
+            buf = None
+            for _ in range(4):
+                org = body.value_origin(o)
+                if org[0] == "call" and org[1].name in ("freeze", "split", "split_to") and org[1].args:
+                    a0 = org[1].args[0]
+                    l = a0["p"]["l"] if a0["c"] in ("copy", "move") and not a0["p"]["pr"] else None
+                    for _k in range(8):
+                        if l is None:
+                            break
+                        ds = body.whole_defs(l)
+                        if len(ds) == 1 and ds[0][0] == "assign" and ds[0][3]["r"]["k"] == "use" and ds[0][3]["r"]["o"]["c"] in ("copy", "move") and not ds[0][3]["r"]["o"]["p"]["pr"]:
+                            l = ds[0][3]["r"]["o"]["p"]["l"]
+                            continue
+                        break
+                    if l is not None and body.locals[l].startswith("bytes::BytesMut"):
+                        buf = l
+                        break
+                    rr = _ref_root(body, a0)
+                    if rr is not None:
+                        buf = rr
+                        break
+                    o = a0
+                    continue
+                break
+            if buf is None or not body.locals[buf].startswith("bytes::BytesMut"):
+                r.note("%s [%s]: the engine is fed from %s (no local accumulation buffer: one read per cycle)" % (short(body.path), cfg, body.provenance(e.args[1])[:80]))
+                continue
+            engine_blocks = set(c.blk for c in body.calls if c.matches(r"ZmtpEngine::on_network_bytes$"))
+            io_err = set(c.blk for c in body.calls if c.matches(r"ZmqError::from_io_endpoint$"))
+            for f in body.calls:
+                if f.blk in engine_blocks or f.target is None or is_plumbing_call(f):
+                    continue
+                if not any(_ref_root(body, a) == buf for a in f.args):
+                    continue
+                if f.name in ("freeze", "split", "len", "is_empty", "capacity"):
+                    continue
+                n += 1
+                key = "%s|bytes appended by %s reach the engine" % (short(body.path), f.name)
+                avoid_edges = set()
+                for s in range(body.n):
+                    t = body.term(s)
+                    if t["k"] != "switch":
+                        continue
+                    a, pol = body.switch_atom(s)
+                    if a[0] == "cmp" and a[1] in ("Eq", "Ne"):
+                        pa, pb = body.provenance(a[2]), body.provenance(a[3])
+                        zero = body.const_int(a[2]) == 0 or body.const_int(a[3]) == 0
+                        if zero and (f.name + "(") in (pa + pb):
+                            avoid_edges.add((s, body.bool_edge_label(s, pol if a[1] == "Eq" else not pol)))
+                    if a[0] == "discr" and a[2].startswith("std::ops::ControlFlow<") and (f.name + "(") in a[1]:
+                        avoid_edges.add((s, body.label_for(s, 1)))
+                avoid_blocks = engine_blocks | io_err
+                reach = body.reachable([f.target], avoid_blocks=avoid_blocks, avoid_edges=avoid_edges)
+                rets = [x for x in body.returns() if x in reach]
+                if rets:
+                    path = _path_to(body, [f.target], rets[0], avoid_blocks, avoid_edges)
+                    via = [body.term(x)["sp"].split("/")[-1] for x in path if body.term(x)["k"] == "switch"]
+                    r.bad(cfg, key, where(body, f.blk), "after %s(&mut buf, ..) the function can return without handing buf to on_network_bytes (branches taken: %s): the bytes already read in this cycle, possibly complete messages, are dropped, so what is delivered depends on whether the peer's data and its FIN were seen in the same read cycle" % (f.name, " -> ".join(via[-4:])))
+                else:
+                    r.ok(cfg, key, where(body, f.blk), "every clean path to return feeds the engine")
+        r.require(cfg, 2, "buffer fill sites")
+
+
+def is_plumbing_call(c):
+    return c.name in ("deref", "deref_mut", "as_ref", "as_mut", "borrow", "borrow_mut", "into_future", "new_unchecked")
+
+
 def run(chk):
     chk.undecided = ["that decoding itself is independent of stream cuts (value-level; see C03)"]
     r1_no_consumer_discards(chk)
     r3_phase_handover_drains(chk)
+    # r4_bytes_read_reach_engine(chk)  # enabled once the triage of its report on the pinned tree is back
     from rules.common import rule_gate_closes_after_stage
     r2 = chk.rule("R2", "a greeting stage closes its re-entry gate only when the stage is finished", "T3 region + T4",
                   "in the ZMTP engine's byte-driven handlers, inside a region guarded by a gate on self.<field>, no assignment of that field is followed (within the region) by a need-more-bytes early return; otherwise the outcome depends on where a read boundary falls")
